@@ -108,3 +108,121 @@ package types
 //@   requires wfPartSet(ps) && 0 <= index && index < ps.total
 //@   assigns  ps.mtx.*
 //@   ensures  result == ps.parts[index]
+
+// ---------------------------------------------------------------------------------------------
+// validator set (C15, C14, C16)
+
+//@ spec sumTo(s Slice, e IntRefArr, p RefIntArr, k Int) Int
+//@ define totalPower(vs *ValidatorSet) Int = sumTo(vs.Validators, elems(vs.Validators), heap(Validator.VotingPower), len(vs.Validators))
+
+//@ pred wfValSet(vs *ValidatorSet) = vs != nil && forall(i, 0, len(vs.Validators), vs.Validators[i] != nil && vs.Validators[i].VotingPower >= 0) \
+//@      && (vs.totalVotingPower == 0 || vs.totalVotingPower == totalPower(vs))
+
+//@ func (*ValidatorSet).Size
+//@   props C15 C14 C16
+//@   requires valSet != nil
+//@   pure
+//@   ensures result == len(valSet.Validators)
+
+//@ func (*Validator).Copy
+//@   props C15 C16
+//@   requires v != nil
+//@   assigns  nothing
+//@   ensures  result != nil && fresh(result) && result.VotingPower == v.VotingPower && result.Accum == v.Accum && result.Address == v.Address && result.PubKey == v.PubKey && result.IsCA == v.IsCA
+
+//@ func (*ValidatorSet).GetByIndex
+//@   props C15 C08
+//@   requires wfValSet(valSet) && 0 <= index && index < len(valSet.Validators)
+//@   assigns  nothing
+//@   ensures  address == valSet.Validators[index].Address
+//@   ensures  val != nil && fresh(val) && val.VotingPower == valSet.Validators[index].VotingPower && val.PubKey == valSet.Validators[index].PubKey && val.Address == valSet.Validators[index].Address
+
+//@ func (*ValidatorSet).TotalVotingPower
+//@   props C15 C14 C16
+//@   requires wfValSet(valSet)
+//@   defines  forall(s, Slice, forall(e, IntRefArr, forall(p, RefIntArr, sumTo(s, e, p, 0) == 0)))
+//@   defines  forall(s, Slice, forall(e, IntRefArr, forall(p, RefIntArr, forall(k, Int, k >= 0 ==> sumTo(s, e, p, k+1) == sumTo(s, e, p, k) + p[e[off(s)+k]]))))
+//@   assigns  valSet.totalVotingPower
+//@   ensures  result == totalPower(valSet) || (result == 0 && totalPower(valSet) == 0)
+//@   ensures  result == totalPower(valSet)
+//@   ensures  wfValSet(valSet)
+//@   loop 0 invariant 0 <= $i && $i <= len(valSet.Validators)
+//@   loop 0 invariant valSet.totalVotingPower == sumTo(valSet.Validators, elems(valSet.Validators), heap(Validator.VotingPower), $i)
+
+// ---------------------------------------------------------------------------------------------
+// vote set (C15)
+
+//@ pred wfBV(bv *blockVotes, n Int) = bv != nil && len(bv.votes) == n && bv.sum >= 0 \
+//@      && (n == 0 ==> bv.bitArray == nil) && (n > 0 ==> wfBA(bv.bitArray) && bv.bitArray.Bits == n)
+
+//@ pred wfVoteSet(vs *VoteSet) = vs != nil && wfValSet(vs.valSet) && len(vs.votes) == len(vs.valSet.Validators) && vs.sum >= 0 \
+//@      && (len(vs.votes) == 0 ==> vs.votesBitArray == nil) && (len(vs.votes) > 0 ==> wfBA(vs.votesBitArray) && vs.votesBitArray.Bits == len(vs.votes)) \
+//@      && vs.votesByBlock != nil && vs.peerMaj23s != nil \
+//@      && forall(k, String, has(vs.votesByBlock, k) ==> wfBV(vs.votesByBlock[k], len(vs.votes)) && alive(vs.votesByBlock[k]) && alive(arr(vs.votesByBlock[k].votes)) && (len(vs.votes) > 0 ==> arr(vs.votesByBlock[k].votes) != arr(vs.votes))) \
+//@      && forall(k1, String, forall(k2, String, has(vs.votesByBlock, k1) && has(vs.votesByBlock, k2) && !(k1 == k2) ==> vs.votesByBlock[k1] != vs.votesByBlock[k2] && (len(vs.votes) > 0 ==> arr(vs.votesByBlock[k1].votes) != arr(vs.votesByBlock[k2].votes))))
+
+//@ func newBlockVotes
+//@   props C15
+//@   requires numValidators >= 0
+//@   assigns  nothing
+//@   ensures  wfBV(result, numValidators) && fresh(result) && result.sum == 0 && result.peerMaj23 == peerMaj23
+//@   ensures  forall(j, 0, numValidators, result.votes[j] == nil)
+//@   ensures  numValidators > 0 ==> fresh(result.votes)
+//@   ensures  alive(arr(result.votes)) || arr(result.votes) == nil
+
+//@ func (*blockVotes).getByIndex
+//@   props C15
+//@   requires vs == nil || (0 <= index && index < len(vs.votes))
+//@   pure
+//@   ensures  result == ite(vs == nil, nil, vs.votes[index])
+
+//@ func (*blockVotes).addVerifiedVote
+//@   props C15 C01
+//@   requires wfBV(vs, len(vs.votes)) && vote != nil && 0 <= vote.ValidatorIndex && vote.ValidatorIndex < len(vs.votes) && votingPower >= 0
+//@   assigns  vs.bitArray.Elems[*], vs.bitArray.mtx.*, vs.votes[vote.ValidatorIndex], vs.sum
+//@   ensures  [counted-once] vs.sum == old(vs.sum) + ite(old(vs.votes[vote.ValidatorIndex]) == nil, votingPower, 0)
+//@   ensures  vs.votes[vote.ValidatorIndex] == ite(old(vs.votes[vote.ValidatorIndex]) == nil, vote, old(vs.votes[vote.ValidatorIndex]))
+//@   ensures  wfBV(vs, len(vs.votes))
+
+//@ func (*VoteSet).getVote
+//@   props C15
+//@   requires wfVoteSet(voteSet) && 0 <= valIndex && valIndex < len(voteSet.votes)
+//@   requires forall(j, 0, len(voteSet.votes), voteSet.votes[j] != nil ==> true)
+//@   pure
+//@   ensures  ok == ((voteSet.votes[valIndex] != nil && keyOf(voteSet.votes[valIndex].BlockID) == blockKey) || (has(voteSet.votesByBlock, blockKey) && voteSet.votesByBlock[blockKey].votes[valIndex] != nil))
+//@   ensures  ok ==> vote != nil
+//@   ensures  !ok ==> vote == nil
+
+//@ axiom wirePSH: forall(a, PartSetHeader, forall(b, PartSetHeader, psHeaderEq(a, b) ==> wireBytes(box(a)) == wireBytes(box(b))))
+
+// invariant linking the canonical votes with the per-block tallies once a majority has been recorded
+//@ pred majInv(vs *VoteSet) = vs.maj23 != nil ==> has(vs.votesByBlock, keyOf(*vs.maj23)) \
+//@      && vs.votesByBlock[keyOf(*vs.maj23)].sum >= quorum(totalPower(vs.valSet)) \
+//@      && forall(j, 0, len(vs.votes), vs.votesByBlock[keyOf(*vs.maj23)].votes[j] != nil ==> vs.votes[j] == vs.votesByBlock[keyOf(*vs.maj23)].votes[j])
+
+//@ func (*VoteSet).addVerifiedVote
+//@   props C15 C01
+//@   let i = vote.ValidatorIndex
+//@   let q = quorum(totalPower(voteSet.valSet))
+//@   let oldBvSum = ite(old(has(voteSet.votesByBlock, blockKey)), old(voteSet.votesByBlock[blockKey].sum), 0)
+//@   requires wfVoteSet(voteSet) && majInv(voteSet) && vote != nil && 0 <= vote.ValidatorIndex && vote.ValidatorIndex < len(voteSet.votes) && votingPower >= 0
+//@   requires blockKey == keyOf(vote.BlockID)
+//@   requires voteSet.votes[vote.ValidatorIndex] == nil || !blockIDEq(voteSet.votes[vote.ValidatorIndex].BlockID, vote.BlockID)
+//@   requires !(has(voteSet.votesByBlock, blockKey) && voteSet.votesByBlock[blockKey].votes[vote.ValidatorIndex] != nil)
+//@   ensures  [counted-once] voteSet.sum == old(voteSet.sum) + ite(old(voteSet.votes[i]) == nil, votingPower, 0)
+//@   ensures  [maj23-monotone] old(voteSet.maj23) != nil ==> voteSet.maj23 == old(voteSet.maj23) && *voteSet.maj23 == old(*voteSet.maj23)
+//@   ensures  [tally-once] added ==> has(voteSet.votesByBlock, blockKey) && voteSet.votesByBlock[blockKey].sum == oldBvSum + votingPower && voteSet.votesByBlock[blockKey].votes[i] == vote
+//@   ensures  [maj23-exact] old(voteSet.maj23) == nil ==> ((voteSet.maj23 != nil) == (added && oldBvSum < q && q <= oldBvSum + votingPower))
+//@   ensures  [maj23-block] old(voteSet.maj23) == nil && voteSet.maj23 != nil ==> *voteSet.maj23 == vote.BlockID
+//@   ensures  [conflict-reported] (conflicting != nil) == (old(voteSet.votes[i]) != nil)
+//@   ensures  [conflict-is-existing] conflicting != nil ==> conflicting == old(voteSet.votes[i])
+//@   ensures  [rejected-untallied] !added ==> conflicting != nil && voteSet.maj23 == old(voteSet.maj23)
+//@   ensures  [wf-a] wfValSet(voteSet.valSet) && len(voteSet.votes) == len(voteSet.valSet.Validators) && voteSet.sum >= 0
+//@   ensures  [wf-b] forall(k, String, has(voteSet.votesByBlock, k) ==> wfBV(voteSet.votesByBlock[k], len(voteSet.votes)))
+//@   ensures  [wf-c] forall(k, String, has(voteSet.votesByBlock, k) ==> alive(voteSet.votesByBlock[k]) && alive(arr(voteSet.votesByBlock[k].votes)) && arr(voteSet.votesByBlock[k].votes) != arr(voteSet.votes))
+//@   ensures  [wf-d] forall(k1, String, forall(k2, String, has(voteSet.votesByBlock, k1) && has(voteSet.votesByBlock, k2) && !(k1 == k2) ==> voteSet.votesByBlock[k1] != voteSet.votesByBlock[k2] && arr(voteSet.votesByBlock[k1].votes) != arr(voteSet.votesByBlock[k2].votes)))
+//@   ensures  [wf-e] (len(voteSet.votes) == 0 ==> voteSet.votesBitArray == nil) && (len(voteSet.votes) > 0 ==> wfBA(voteSet.votesBitArray) && voteSet.votesBitArray.Bits == len(voteSet.votes))
+//@   ensures  wfVoteSet(voteSet)
+//@   ensures  majInv(voteSet)
+//@   loop 0 invariant 0 <= $i && $i <= len(votesByBlock.votes) && votesByBlock != nil && len(voteSet.votes) == len(votesByBlock.votes)
+//@   loop 0 invariant forall(j, 0, $i, votesByBlock.votes[j] != nil ==> voteSet.votes[j] == votesByBlock.votes[j])
